@@ -1289,3 +1289,37 @@ def awaited_error_leaves_function(b, c):
             err_arms.append(arms["1"])
     ok = bool(err_arms) and all(t in errs or flow.all_paths_pass(b, t, errs, exits) for t in err_arms)
     return bool(err_arms), ok
+
+
+def result_outcome_arms(b, is_outcome_ty):
+    """For every local of `b` whose type satisfies is_outcome_ty (a Result): the blocks entered when it is Ok / Err,
+    whether the code matches on it (`match`, `if let`, `?`) or asks `is_ok()` / `is_err()`. -> (ok_targets, err_targets)"""
+    oks, errs = set(), set()
+    for l, loc in enumerate(b.locals):
+        if not is_outcome_ty(loc["ty"]):
+            continue
+        for sb, arms, other in flow.switch_on(b, l):
+            if arms.get("0") is not None:
+                oks.add(arms["0"])
+            if arms.get("1") is not None:
+                errs.add(arms["1"])
+        holders = follow_value(b, l)
+        for br in b.calls_to(r"Try.*::branch$"):
+            if any(arg_is_local(b, br.args[0], h) for h in holders):
+                for sb, arms, other in flow.switch_on(b, br.dest["l"]):
+                    if arms.get("0") is not None:
+                        oks.add(arms["0"])
+                    if arms.get("1") is not None:
+                        errs.add(arms["1"])
+        for q in b.calls_to(r"Result::<.*>::(is_ok|is_err)$"):
+            pl = op_place(q.args[0]) if q.args else None
+            if pl is None or not (flow._local_copies_back(b, pl["l"], 6) & holders):
+                continue
+            neg = (q.name() or "").endswith("is_err")
+            for sb, arms, other in flow.switch_on(b, q.dest["l"]):
+                t, f = arms.get("1"), arms.get("0")
+                if t is not None:
+                    (errs if neg else oks).add(t)
+                if f is not None:
+                    (oks if neg else errs).add(f)
+    return oks, errs
